@@ -290,7 +290,20 @@ def gen_scenario(rng, steer=None):
         if rng.random() < 0.4:
             handlers.append({"id": len(handlers), "types": [["p", 0, ["lit", [4 if rng.random() < 0.5 else 1], ["cls", C_INT]]]]})
         nslots = 1
-        if rng.random() < 0.3:
+        if rng.random() < 0.4:
+            # a second dispatched position that is value-dependent in SOME of the handlers only: the lookup-table
+            # body checks one condition per handler, so it must not be chosen here
+            k2 = rng.choice([C_STR, C_INT])
+            key_classes = [C_INT, k2]
+            nslots = 2
+            supers2 = [c for c in range(w.n) if w.tables_cache["sub"][k2][c]]
+            for hi, h in enumerate(handlers):
+                if rng.random() < 0.45 or hi == 0:
+                    t2 = gen_applicable_type(rng, ew, k2, allow_combo=False)
+                else:
+                    t2 = ["cls", rng.choice(supers2)]
+                h["types"].append(["p", 1, t2])
+        elif rng.random() < 0.3:
             # Literals of several value types are bounded by `object`: any value reaches the dispatcher, including
             # unhashable ones on the lookup-table path
             key_classes = [C_OBJECT]
